@@ -17,6 +17,7 @@ import (
 
 	"github.com/getkin/kin-openapi/openapi2"
 	"github.com/getkin/kin-openapi/openapi2conv"
+	"github.com/getkin/kin-openapi/openapi3"
 
 	"kinverif/internal/hx"
 )
@@ -76,7 +77,13 @@ func runC17(c hx.Case) any {
 		return map[string]any{"kind": "marshal3-error", "why": err.Error()}
 	}
 	out["api3"] = c17Api3(m3)
-	back, err := openapi2conv.FromV3(d3)
+	back, err, panicked := c17FromV3(d3)
+	if panicked != "" {
+		out["fromV3"] = "panic"
+		out["why"] = panicked
+		return out
+	}
+	out["fromV3"] = "ok"
 	if err != nil {
 		out["fromV3"] = "error"
 		out["why"] = err.Error()
@@ -99,6 +106,16 @@ func runC17(c hx.Case) any {
 	sort.Strings(bad)
 	out["badRefs"] = bad
 	return out
+}
+
+func c17FromV3(d3 *openapi3.T) (back *openapi2.T, err error, panicked string) {
+	defer func() {
+		if r := recover(); r != nil {
+			panicked = fmt.Sprint(r)
+		}
+	}()
+	back, err = openapi2conv.FromV3(d3)
+	return
 }
 
 func unmarshalNum(b []byte, v any) error {
@@ -706,6 +723,12 @@ func c17Obs(im map[string]any, exp map[string]any, api3Key, backKey string) (boo
 	if !c17Same(im["api3"], exp[api3Key]) {
 		return false, "api3(ToV3 d): " + c17Diff(im["api3"], exp[api3Key])
 	}
+	if jstr(im, "fromV3") != jstr(exp, "fromV3") {
+		return false, fmt.Sprintf("FromV3: impl %s (%v) vs %s", jstr(im, "fromV3"), im["why"], jstr(exp, "fromV3"))
+	}
+	if jstr(exp, "fromV3") != "ok" {
+		return true, ""
+	}
 	if im["back"] == nil {
 		return false, fmt.Sprintf("FromV3 failed: %v %v", im["fromV3"], im["why"])
 	}
@@ -750,7 +773,7 @@ type g17 struct {
 	r        *hx.Rng
 	defs     []string // definition names that may be referenced
 	addlBad  int      // percent chance of a not completely converted additionalProperties sub-schema
-	binProps bool
+	clean    bool     // stay outside every known-finding class (the property is then checked strictly)
 }
 
 func (g *g17) pick(xs ...any) any { return xs[g.r.Intn(len(xs))] }
@@ -810,6 +833,9 @@ func (g *g17) constraints(m map[string]any, ty string, density int, isParam bool
 		}
 		if ch() {
 			m["format"] = g.pick("date", "date-time", "byte", "password")
+			if !g.clean && g.r.Chance(12) {
+				m["format"] = "binary" // class BinaryString
+			}
 			delete(m, "default")
 			delete(m, "enum")
 			delete(m, "pattern")
@@ -864,10 +890,10 @@ func (g *g17) ref() map[string]any {
 
 // pure additionalProperties sub-schema: references only along the additionalProperties chain
 func (g *g17) addlSchema(depth int) any {
-	if len(g.defs) > 0 && g.r.Chance(35) {
+	if !g.clean && len(g.defs) > 0 && g.r.Chance(35) {
 		return g.ref()
 	}
-	if g.r.Chance(g.addlBad) {
+	if !g.clean && g.r.Chance(g.addlBad) {
 		// not completely converted by convertRefsInV3SchemaRef (class AddlSubschemaUnconverted)
 		switch g.r.Intn(3) {
 		case 0:
@@ -943,7 +969,7 @@ func (g *g17) schema(depth int, density int) map[string]any {
 					m["required"] = req
 				}
 			}
-			if g.r.Chance(10) {
+			if !g.clean && g.r.Chance(10) {
 				ks := sortedKeys(props)
 				m["discriminator"] = ks[0]
 				pm := jmap(props[ks[0]])
@@ -1001,14 +1027,19 @@ func (g *g17) param(name, in string, density int) map[string]any {
 func (g *g17) formParam(name string, density int) map[string]any {
 	if g.r.Chance(25) {
 		p := map[string]any{"name": name, "in": "formData", "type": "file"}
-		if g.r.Chance(40) {
+		if !g.clean && g.r.Chance(40) {
 			p["required"] = true
 		}
 		return p
 	}
 	p := g.param(name, "formData", density)
 	delete(p, "required")
-	if g.r.Chance(35) {
+	if g.clean {
+		delete(p, "format")
+		if it := jmap(p["items"]); it != nil {
+			_ = it
+		}
+	} else if g.r.Chance(35) {
 		p["required"] = true
 	}
 	return p
@@ -1329,7 +1360,7 @@ func (g *g17) randomDoc() map[string]any {
 	density := hx.Pick(r, []int{15, 35, 60})
 	// definitions
 	allDefs := []string{"A", "B", "C", "D"}[:r.Intn(5)]
-	if r.Chance(3) {
+	if !g.clean && r.Chance(3) {
 		allDefs = append(allDefs, "My Def")
 	}
 	defs := map[string]any{}
@@ -1348,7 +1379,7 @@ func (g *g17) randomDoc() map[string]any {
 		d["definitions"] = defs
 	}
 	// location
-	if r.Chance(60) {
+	if g.clean || r.Chance(60) {
 		d["host"] = g.pick("api.example.com", "h:8080")
 	}
 	if r.Chance(50) {
@@ -1356,12 +1387,21 @@ func (g *g17) randomDoc() map[string]any {
 	}
 	if r.Chance(50) {
 		d["schemes"] = g.pick([]any{"https"}, []any{"http"}, []any{"http", "https"}, []any{"https", "ws"})
+		if g.clean {
+			d["schemes"] = g.pick([]any{"https"}, []any{"http"}, []any{"http", "https"})
+		}
 	}
 	if r.Chance(30) {
 		d["consumes"] = g.pick([]any{"application/json"}, []any{"application/xml"}, []any{"application/json", "text/plain"})
+		if g.clean {
+			d["consumes"] = g.pick([]any{"application/json"}, []any{"application/xml"}) // two media types: class SharedBodyNullableLost
+		}
 	}
 	if r.Chance(30) {
 		d["produces"] = hx.Pick(r, c17Produces[2:])
+		if g.clean {
+			d["produces"] = g.pick([]any{"application/json"}, []any{"application/json", "application/xml"})
+		}
 	}
 	// shared parameters and responses
 	sharedQ, sharedB, sharedF := []string{}, []string{}, []string{}
@@ -1378,7 +1418,7 @@ func (g *g17) randomDoc() map[string]any {
 			sharedB = append(sharedB, name)
 		case 1:
 			fp := map[string]any{"name": "sf" + name, "in": "formData", "type": "file"}
-			if r.Chance(15) {
+			if !g.clean && r.Chance(15) {
 				fp = g.formParam("sf"+name, density) // non-file shared form parameters: class SharedFormParamNotFile
 			}
 			if r.Bool() {
@@ -1496,6 +1536,9 @@ func (g *g17) randomDoc() map[string]any {
 			}
 			if r.Chance(35) {
 				op["produces"] = hx.Pick(r, c17Produces[2:])
+				if g.clean {
+					op["produces"] = g.pick([]any{"application/json"}, []any{"application/json", "application/xml"})
+				}
 			}
 			pi[m] = op
 		}
@@ -1513,6 +1556,7 @@ func genC17(ctx *hx.Ctx, emit func(hx.Case)) {
 	}
 	g := &g17{r: ctx.Rng, addlBad: 6}
 	for i := 0; i < n; i++ {
+		g.clean = i%2 == 0 // every other document stays outside the known-finding classes
 		emit(hx.Case{"doc": g.randomDoc()})
 	}
 }
